@@ -71,7 +71,9 @@ def build_pipeline(rng, scratch, idx):
     return steps, mult, desc
 
 
-def real_trace(n, steps, shape='dense'):
+def real_trace(n, steps, shape='dense', via_load=None):
+    """via_load = None: the counting generator is the source itself; otherwise {'limit_rows': L or None}: it is
+    handed to load() as a (descriptor, [iterator]) pair, with load's own row wrappers on top"""
     trace = []
 
     def source():
@@ -86,7 +88,15 @@ def real_trace(n, steps, shape='dense'):
             trace.append(['d', r['i']])
             yield r
     with quiet():
-        Flow(source(), *steps, sink).process()
+        if via_load is None:
+            Flow(source(), *steps, sink).process()
+        else:
+            from .. import canon
+            d = canon.make_descriptor([{'name': 'src', 'fields': [('i', 'integer'), ('m2', 'integer'), ('m3', 'integer'),
+                                                                  ('m5', 'integer'), ('u1', 'integer'), ('u2', 'integer'),
+                                                                  ('pad', 'string'), ('opt', 'string'), ('mixed', 'integer')]}])
+            kw = {} if via_load.get('limit_rows') is None else {'limit_rows': via_load['limit_rows']}
+            Flow(DF.load((d, [source()]), **kw), *steps, sink).process()
     return trace
 
 
@@ -137,6 +147,23 @@ def run(ctx):
         big = [results[n] for n in results if n >= 300]
         if len(set(big)) > 1:
             rep.fail('lookahead-grows-with-n', {'pipeline': desc}, results)
+        # the same chain behind load((descriptor, iterators)) with and without limit_rows
+        if idx % 2 == 0:
+            n = rng.choice([250, 1000, 3000])
+            for lim in (None, n // 2, n, 10 * n):
+                rng.setstate(state)
+                steps, mult, desc = build_pipeline(rng, ctx.scratch, idx)
+                tr = real_trace(n, steps, 'dense', via_load={'limit_rows': lim})
+                la = max_lookahead(tr)
+                case = {'pipeline': desc, 'n': n, 'source': 'load((descriptor, [iterator]))', 'limit_rows': lim}
+                delivered = sum(1 for t in tr if t[0] == 'd')
+                rep.case('trace:load', case, key=[desc, n, 'load', lim], nontrivial=delivered > 0)
+                rep.hist('max_lookahead_load', la)
+                if la > max(S - 1, 0):
+                    rep.fail('lookahead-exceeds-sample:load', case, {'max_lookahead': la, 'sample_size': S})
+                pulled = sum(1 for t in tr if t[0] == 'p')
+                if lim is not None and pulled > min(n, lim) + S:
+                    rep.fail('limit_rows-reads-beyond-the-limit', case, {'pulled': pulled, 'limit_rows': lim})
     if ctx.model.available():
         outs = ctx.model.run([op for _, op, _ in pending])
         for (case, _op, tr), mo in zip(pending, outs):
